@@ -11,8 +11,11 @@ MCBufs1     == <<[s |-> 0, n |-> 4, ctx |-> 1], [s |-> 4, n |-> 2, ctx |-> 1]>>
 MCBufs2     == <<[s |-> 0, n |-> 2, ctx |-> 1], [s |-> 2, n |-> 2, ctx |-> 2], [s |-> 4, n |-> 2, ctx |-> 1]>>
 \* boundary classes: inside a page, up to / from / across a page boundary, whole buffer, across buffers
 MCRanges    == {<<0, 1>>, <<1, 1>>, <<1, 2>>, <<0, 4>>, <<1, 4>>, <<3, 3>>, <<2, 2>>, <<0, 6>>}
-MCRangesQ   == {<<1, 2>>, <<0, 4>>, <<3, 3>>, <<2, 2>>, <<1, 4>>}
+MCRangesQ   == {<<1, 2>>, <<0, 4>>, <<3, 3>>, <<2, 2>>, <<1, 4>>, <<4, 0>>}
 MCKWrites   == {{1}, {2, 3}, {5}}
+MCRangesT   == {<<1, 2>>, <<3, 3>>, <<2, 2>>, <<1, 0>>}
+MCKWritesT  == {{2, 3}}
+MCRangesE   == {<<1, 0>>, <<1, 2>>, <<2, 2>>, <<4, 0>>}
 MCKWritesQ  == {{2, 3}, {1}}
 \* buffers smaller than their page: bytes 1, 3, 5 are mapped but belong to no buffer
 MCBufsSlack == <<[s |-> 0, n |-> 1, ctx |-> 1], [s |-> 2, n |-> 1, ctx |-> 1], [s |-> 4, n |-> 1, ctx |-> 1]>>
